@@ -219,6 +219,9 @@ func (e *exec) Exec(op string) string {
 			e.keys[k] = e.lookup(p)
 		}
 		if err := e.enc.Encode(&tm); err != nil { // the real WALEncoder on the real Group
+			if strings.Contains(err.Error(), "msg is too big") {
+				return "err-toobig" // fix 0f01527: refused before anything is written
+			}
 			return "err"
 		}
 		eh := "-"
